@@ -11,7 +11,7 @@ QUALS = ["_ReusablePoolExecutor._resize", "_ReusablePoolExecutor._wait_job_compl
 class C10(TreeCheck):
     prop = "C10"
     rule_text = (
-        "programs from g_resize (old,new in 1..6; in-flight work 0-3x capacity; timeout in {none,0.3,0.05,0.01}; repeated resizes) in profile mode; "
+        "programs from g_resize (family callback_submits in 2 of 7 programs: the jobs in flight during the resize - one job, or several - have done-callbacks that submit to the executor; old,new in 1..6; in-flight work 0-3x capacity; timeout in {none,0.3,0.05,0.01}; repeated resizes) in profile mode; "
         "a delay of 3x the timeout at every discovered statement of _resize/_wait_job_completion (D, enumerated in the thorough tier, sampled in "
         "quick) and at the worker's time-out/exit points (WD); a worker death at a sampled worker statement while the resize runs (K); jitter (Z). "
         "Non-trivial = a size-changing factory call on a started executor returned (or stalled); distinct = (old,new, timeout, mode, injection "
@@ -22,7 +22,7 @@ class C10(TreeCheck):
 
     def bases(self, tier, rng):
         n = 14 if tier == "quick" else 100
-        return [dict(zip(("program", "meta"), programs.g_resize(rng, family="callback_submits" if i % 7 in (2, 5) else None)), config={}) for i in range(n)]
+        return [dict(zip(("program", "meta"), programs.g_resize(rng, family="callback_submits" if i % 7 in (2, 5) else None, single=(i % 7 == 5))), config={}) for i in range(n)]
 
     def derive(self, base, F, rng, tier):
         quick = tier == "quick"
